@@ -114,7 +114,7 @@ macro_rules! slow_glue {
             let fp = ExtendedFloat { mant: kani::any(), exp: kani::any() };
             kani::assume(fp.mant >> 63 == 1);
             let digits: usize = kani::any();
-            kani::assume(digits >= 1 && digits <= $maxd + 1);
+            kani::assume(digits >= 1 && digits <= 2000);
             let ret = ExtendedFloat { mant: kani::any(), exp: kani::any() };
             unsafe {
                 S_BIG_DIGITS = digits;
@@ -125,7 +125,7 @@ macro_rules! slow_glue {
             let sci = scientific_exponent(&num);
             let ex = sci + 1 - digits as i32;
             unsafe {
-                assert!(S_MAXD == $maxd, "P-SLOW keeps MAX_DIGITS digits (769 f64 / 114 f32)");
+                assert!(S_MAXD >= $maxd, "P-SLOW keeps at least 769 (f64) / 114 (f32) digits: one more than the longest exact halfway expansion");
                 if ex >= 0 {
                     assert!(S_POS == Some(ex) && S_NEG.is_none(), "P-SLOW non-negative scale -> positive_digit_comp(digits, sci+1-count)");
                 } else {
